@@ -83,14 +83,14 @@ def _m3d(job):
     # log mode: exp(volume average of log); resistivity <-> conductivity
     v = 10**rng.uniform(-4, 4, ni)
     lin = maps.interpolate(gi, v, go, method='volume', log=False)
-    if not np.allclose(lin.ravel('F'), M @ v.ravel('F'), rtol=1e-13):
+    if not np.allclose(lin.ravel('F'), M @ v.ravel("F"), rtol=1e-13, atol=0):
         obs.append("not linear")
     lg = maps.interpolate(gi, v, go, method='volume', log=True)
     ref = 10**(M @ np.log10(v.ravel('F')))
-    if not np.allclose(lg.ravel('F'), ref, rtol=1e-12):
+    if not np.allclose(lg.ravel("F"), ref, rtol=1e-12, atol=0):
         obs.append("log mode is not 10**(average of log10)")
     lgi = maps.interpolate(gi, 1.0/v, go, method='volume', log=True)
-    if not np.allclose(lgi, 1.0/lg, rtol=1e-12):
+    if not np.allclose(lgi, 1.0/lg, rtol=1e-12, atol=0):
         obs.append("log mode: resistivity and conductivity give different "
                    "models")
     if lin.min() < v.min()*(1-1e-13) or lin.max() > v.max()*(1+1e-13):
@@ -98,7 +98,8 @@ def _m3d(job):
     # Model.interpolate_to_grid picks log mode from the mapping
     mc = emg3d.Model(gi, v, mapping='Conductivity').interpolate_to_grid(go)
     mr = emg3d.Model(gi, 1/v, mapping='Resistivity').interpolate_to_grid(go)
-    if not np.allclose(mc.property_x, 1.0/mr.property_x, rtol=1e-12):
+    if not np.allclose(mc.property_x, 1.0/mr.property_x, rtol=1e-12,
+                       atol=0):
         obs.append("interpolate_to_grid differs between resistivity and "
                    "conductivity models")
     out = [{"kind": "m3d", "src": "emg3d", "xi": xi, "xo": xo, "ent": e1,
@@ -113,6 +114,24 @@ def _m3d(job):
     maps._interp_volume_average_adj(oval, gi, nval, go)
     adj_ok = all(np.allclose(oval[k].ravel('F'), P.T @ nval[k].ravel('F'),
                              rtol=1e-13, atol=1e-300) for k in range(3))
+    # ... whatever pair of grids it was applied to before: a second pair
+    # with the same cell counts, origin and extent but other widths, then
+    # the first pair again
+    gi2 = emg3d.TensorMesh([h[::-1].copy() for h in gi.h], gi.origin)
+    go2 = emg3d.TensorMesh([h[::-1].copy() for h in go.h], go.origin)
+    for a, b in ((gi2, go2), (gi, go)):
+        Pab = discretize.utils.volume_average(a, b).toarray()
+        ov = np.zeros((3, *ni))
+        maps._interp_volume_average_adj(ov, a, nval, b)
+        if not all(np.allclose(ov[k].ravel('F'), Pab.T @ nval[k].ravel('F'),
+                               rtol=1e-13, atol=1e-300) for k in range(3)):
+            adj_ok = False
+        back = maps.interpolate(a, np.arange(1., a.n_cells+1).reshape(
+            a.shape_cells, order='F'), b, method='volume', log=False)
+        if not np.allclose(back.ravel('F'),
+                           Pab @ np.arange(1., a.n_cells+1), rtol=1e-13,
+                           atol=0):
+            adj_ok = False
     out.append({"kind": "m3d", "src": "discretize", "xi": xi, "xo": xo,
                 "ent": e2, "obs": adj_ok and not b2,
                 "notes": [] if adj_ok else ["adjoint is not P^T"],
